@@ -87,7 +87,22 @@ def _build(mk, desc, T, blsym, subst_kind, freqs, site_pattern=None):
     taxa = Taxa("taxa", [Taxon(n, {}) for n in taxa_names])
     seqs = {n: "".join(SEQS[n][c] for c in desc["cols"]) for n in taxa_names}
     aln = Alignment("a", [Sequence(n, seqs[n]) for n in desc["seq_order"]], taxa, NucleotideDataType(None))
-    tree = parse_tree(taxa, {"newick": desc["newick"]})
+    # Taxa and Alignment are mutable lists: an edit between their construction and the construction of the tree model / likelihood
+    # is one more way of writing the same data down (leaf indices follow the Taxa order at the time the tree model is built)
+    edit = desc.get("edit")
+    if edit == "aln.sort":
+        aln.sort(key=lambda q: q.taxon)
+    elif edit == "aln.reverse":
+        aln.reverse()
+    elif edit == "taxa.reverse":
+        taxa.reverse()
+        taxa_names = list(reversed(taxa_names))
+    elif edit == "taxa.sort":
+        taxa.sort(key=lambda q: q.id, reverse=True)
+        taxa_names = sorted(taxa_names, reverse=True)
+    elif edit is not None:
+        raise RuntimeError("unknown edit %r" % (edit,))
+    tree = parse_tree(taxa, {"newick": desc.get("tag", "") + desc["newick"]})
     nodes, root = trees.index_tree(trees.parse_newick(desc["newick"]), taxa_names)
     # branch-length vector: entry i belongs to the branch above node i, identified by its split
     vals = []
@@ -391,6 +406,19 @@ def obligations(tier, seed):
             a2 = dict(base, cols=base["cols"] + [base["cols"][0]])
             b = dict(a2, cols=list(reversed(a2["cols"])))
             add("C02.column_order[%s]" % base["newick"], (T, a2, b, "stub"), "column order / merged patterns")
+            # NEWICK rooting comment: '[&R]' / '[&U]' in front of the string is part of the notation, not of the tree
+            for tag in ("[&U]", "[&R]"):
+                if tag == "[&R]" and k % 2:
+                    continue
+                b = dict(base, tag=tag)
+                add("C02.rooting_tag[%s%s]" % (tag, base["newick"]), (T, base, b, "stub"), "NEWICK rooting tag")
+            # the mutable Taxa / Alignment lists edited between their construction and the construction of the models
+            for edit in (("aln.sort", "aln.reverse", "taxa.reverse", "taxa.sort") if k == 0 or tier == "thorough" else ("aln.reverse", "taxa.reverse")):
+                for tip_states in ((False, True) if k == 0 else (False,)):
+                    a4 = dict(base, taxa=rng.sample(names, T), seq_order=rng.sample(names, T), tip_states=tip_states)
+                    b = dict(a4, edit=edit)
+                    add("C02.list_edit[%s,%s,taxa=%s,seqs=%s,tipstates=%s]" % (base["newick"], edit, "".join(a4["taxa"]), "".join(a4["seq_order"]), tip_states),
+                        (T, a4, b, "stub"), "Taxa / Alignment lists reordered after construction")
             # tip states vs tip partials with ambiguities as missing
             a3 = dict(base, use_amb=False)
             b = dict(base, tip_states=True)
